@@ -136,12 +136,17 @@ def gen_case(rng, tier):
         udoc = {'doc': M([]), 'safe': True, 'unsafe': True, 'included': True}
     safe2 = s.doc() if rng.random() < 0.7 else None
     ordered = [d for d in s.docs]
+    # exactly one unsafe element per case (an unsafe node that is refused aborts the build and would mask everything after it);
+    # everything else is safe and must keep working
+    focus = rng.choice(['dyn', 'dyn', 'taint', 'taint', 'deep', 'deep'])
     # --- dynamic nodes with merge histories
     keys = []
-    for j in range(rng.choice([1, 1, 2, 3])):
+    n_dyn = rng.choice([1, 1, 2, 3])
+    focus_dyn = rng.randrange(n_dyn) if focus == 'dyn' else -1
+    for j in range(n_dyn):
         key = f'k{j}'
         kind = rng.choice(KINDS)
-        unsafe = rng.random() < 0.7
+        unsafe = j == focus_dyn
         node = s.dyn(kind, unsafe)
         hist = rng.choice(['single', 'single', 'placeholder_before', 'args_after', 'name_after', 'fn_after', 'del_readd', 'weak_placeholder', 'prev_move', 'force_unsafe'])
         if unsafe:
@@ -192,8 +197,10 @@ def gen_case(rng, tier):
             put(later['doc'], (f'moved{j}',), SP('prev', path=key))
         keys.append(key)
     # --- data of mixed origin and consumers with reference chains
-    for j in range(rng.choice([0, 1, 1, 2])):
-        tainted = rng.random() < 0.75
+    n_data = rng.choice([0, 1, 1, 2]) if focus != 'taint' else rng.choice([1, 1, 2])
+    focus_data = rng.randrange(n_data) if focus == 'taint' else -1
+    for j in range(n_data):
+        tainted = j == focus_data
         i = s.uid()
         marker = f'TAINT{i}' if tainted else f'clean{i}'
         dkey = f'd{j}'
@@ -250,6 +257,52 @@ def gen_case(rng, tier):
         if rng.random() < 0.2 and tainted and safe2 is not None:
             # a list grown by unsafe content and consumed by a safe call
             put(safe1['doc'], (f'lst{j}',), L([S(f'clean{s.uid()}', style='dq')]))
+    # --- deep patches: unsafe content merged *into* a safe container that sits below a merge flag, in a list, or among the
+    #     arguments of a call (the container inherits flags; the patch is only implicitly unsafe: marker at least one level up)
+    for j in range(1 if focus == 'deep' else 0):
+        i = s.uid()
+        shape = rng.choice(['merge_anc', 'del_anc', 'list_item', 'call_arg', 'plain'])
+        bk = f'base{j}'
+        payload_kind = rng.choice(['dyn', 'dyn', 'taint'])
+        if payload_kind == 'dyn':
+            payload_key, payload = 'hook', s.dyn(rng.choice(['call', 'eval', 'import', 'fstr', 'bind']), True)
+        else:
+            payload_key, payload = 'val', S(f'TAINT{i}', style='dq')
+        if shape in ('merge_anc', 'del_anc', 'plain'):
+            basev = M([['opts', M([['a', S(1)]])], ['other', S(2)]])
+            if shape != 'plain':
+                basev['del'] = shape == 'del_anc'
+            patch = M([['opts', M([[payload_key, payload]])]])
+            if shape == 'del_anc':
+                patch['items'].append(['other', S(2)])
+            cons_path = f'{bk}.opts.val'
+        elif shape == 'list_item':
+            basev = L([M([['a', S(1)]]), S(5)])
+            patch = M([[0, M([[payload_key, payload]])]])
+            cons_path = f'{bk}[0].val'
+        else:
+            i3 = s.uid()
+            basev = SP('call', func=f'verif_targets.s{i3}', args=M([['cfg', M([['a', S(1)]])], ['n', S(3)]]))
+            patch = M([['cfg', M([[payload_key, payload]])]])
+            cons_path = None
+        put(safe1['doc'], (bk,), basev)
+        # where the unsafe patch comes from
+        if how in ('root', 'source', 'include') and udoc is not None:
+            put(udoc['doc'], (bk,), patch)
+        else:
+            later = safe2 if safe2 is not None else s.doc()
+            if later not in ordered:
+                ordered.append(later)
+            if rng.random() < 0.5:
+                patch['unsafe'] = True                     # marker on the top-level key: the merged dict is one level below
+                put(later['doc'], (bk,), patch)
+            else:
+                holder = M([[bk, patch]], unsafe=True)     # marker on a wrapper document root
+                d3 = {'doc': holder, 'safe': True, 'unsafe': True}
+                ordered.append(d3)
+        if payload_kind == 'taint' and cons_path:
+            i4 = s.uid()
+            put(safe1['doc'], (f'cp{j}',), SP('call', func=f'verif_targets.s{i4}', args=L([SP('xref', path=cons_path)])))
     if rng.random() < 0.5:
         items = safe1['doc']['items']
         rng.shuffle(items)
@@ -339,14 +392,31 @@ def run(case):
             return {'status': 'ok', 'nontrivial': False, 'feats': feats + ['merge_fails_' + lib.err_kind(mo[1])]}
         tree = mo[1]
         surv = survivors(tree) if tree is not None else []
+        # two public evaluation routes: the evaluation context applied to the merged tree itself, and Config (which deep-copies first)
+        got0 = lib.outcome(lambda: EvalContext(eval_symbols={'T': verif_targets}).evaluate(tree)) if tree else ('ok', {})
+        log0 = list(verif_targets.LOG)
+        imports0 = list(IMPORTS)
+        verif_targets.reset()
+        del IMPORTS[:]
+        for m in [m for m in sys.modules if m.startswith('vtaint_') or m.startswith('vsafe_')]:
+            del sys.modules[m]
         got = lib.outcome(lambda: Config(tree, eval_ctx=EvalContext(eval_symbols={'T': verif_targets})))
     finally:
         os.chdir(cwd)
         if td:
             shutil.rmtree(td, ignore_errors=True)
     vio = []
-    log = list(verif_targets.LOG)
+    log = list(verif_targets.LOG) + log0
+    IMPORTS.extend(imports0)
     _counts['imports_seen'] += len(IMPORTS)
+    if got0[0] == 'ok' and got[0] != 'ok' or got0[0] != 'ok' and got[0] == 'ok':
+        feats.append('routes_disagree')
+    if got0[0] == 'ok' and surv:
+        vio.append({'mech': 'unsafe-node-not-refused', 'what': f'EvalContext.evaluate(merged tree) succeeded although unsafe dynamic node(s) {surv} survive merging; {what}'})
+    if got0[0] == 'ok' and isinstance(got0[1], dict):
+        for k, v in got0[1].items():
+            if isinstance(k, str) and k.startswith('c') and isinstance(v, str) and 'TAINT' in v:
+                vio.append({'mech': 'tainted-value-resolved-by-code', 'what': f'[EvalContext.evaluate] {k} = {v!r} was computed by evaluated code from unsafe data; {what}'})
     for name, a, kw in log:
         if name.startswith('u'):
             vio.append({'mech': 'unsafe-target-called', 'what': f'target {name} (written by unsafe content) was called with {a!r} {kw!r}; {what}'})
